@@ -203,7 +203,7 @@ func (w *World) runOp(t *simrt.Task, op *OpSpec, retry bool) *CallRec {
 	// C09: a failed Add through a stale handle has refreshed the handle;
 	// the immediate retry (no interference: sequential histories only)
 	// succeeds and commits.
-	if w.Sequential && !retry && op.Kind == OpAdd && cr.StaleAtStart && cr.Class == "lockfail" && !w.Sim.Stop {
+	if w.Sequential && !retry && op.Kind == OpAdd && cr.StaleAtStart && cr.Class == "lockfail" && !w.Sim.Stop && !w.lockHeldByOpenAddition() {
 		w.probe("c09-retry")
 		rr := w.runOp(t, op, true)
 		if rr != nil {
@@ -224,10 +224,18 @@ func (w *World) invoke(t *simrt.Task, hs *HandleState, op *OpSpec, cr *CallRec) 
 		reftable.SimSetAutoCompact(st, op.Auto)
 		return nil
 	case OpClose:
+		if hs.Tr != nil {
+			hs.Tr.Close()
+			hs.Tr, hs.TrOp, hs.TrWritten = nil, 0, nil
+		}
 		hs.St.Close()
 		hs.Open = false
 		return nil
 	case OpReopen:
+		if hs.Tr != nil {
+			hs.Tr.Close()
+			hs.Tr, hs.TrOp, hs.TrWritten = nil, 0, nil
+		}
 		hs.St.Close()
 		hs.Open = false
 		st, err := reftable.NewStack(DBDir, w.Cfg)
@@ -247,6 +255,51 @@ func (w *World) invoke(t *simrt.Task, hs *HandleState, op *OpSpec, cr *CallRec) 
 		}
 		st := hs.St
 		return st.Add(w.writeFn(t, cr, &op.Txns[0], func() uint64 { return st.NextUpdateIndex() }))
+	case OpBegin:
+		if hs.Tr != nil {
+			return nil
+		}
+		tr, err := hs.St.NewAddition()
+		if err != nil {
+			return err
+		}
+		hs.Tr, hs.TrOp, hs.TrWritten = tr, cr.Op, nil
+		next := hs.St.NextUpdateIndex()
+		for i := range op.Txns {
+			base := next
+			span := op.Txns[i].Span
+			if span < 1 {
+				span = 1
+			}
+			err := tr.Add(w.writeFn(t, cr, &op.Txns[i], func() uint64 { return base }))
+			if n := len(cr.Written); n > 0 && !cr.Written[n-1].Empty && err == nil {
+				next = base + uint64(span)
+			}
+			if err != nil {
+				// a failed table poisons nothing: the Addition stays open
+				// with the tables added so far, as the API allows
+				if n := len(cr.Written); n > 0 {
+					cr.Written[n-1].Rejected = true
+				}
+				hs.TrWritten = append([]WrittenTable(nil), cr.Written...)
+				return err
+			}
+		}
+		hs.TrWritten = append([]WrittenTable(nil), cr.Written...)
+		return nil
+	case OpCommit, OpAbort:
+		if hs.Tr == nil {
+			return nil
+		}
+		tr := hs.Tr
+		cr.Written = append(cr.Written, hs.TrWritten...)
+		defer func() { hs.Tr, hs.TrOp, hs.TrWritten = nil, 0, nil }()
+		defer tr.Close()
+		if op.Kind == OpCommit {
+			return tr.Commit()
+		}
+		cr.Written = nil
+		return nil
 	case OpAddMulti:
 		tr, err := hs.St.NewAddition()
 		if err != nil {
@@ -384,7 +437,7 @@ func (w *World) afterOp(t *simrt.Task, hs *HandleState, cr *CallRec, before dirS
 		}
 	}
 	latest := w.Latest()
-	isAdd := cr.Kind == OpAdd || cr.Kind == OpAddMulti
+	isAdd := cr.Kind == OpAdd || cr.Kind == OpAddMulti || cr.Kind == OpCommit
 
 	// ---- panics
 	if cr.Class == "panic" {
@@ -429,7 +482,7 @@ func (w *World) afterOp(t *simrt.Task, hs *HandleState, cr *CallRec, before dirS
 				justified, why = true, "stale"
 			}
 		}
-		if !justified && isAdd && cr.Appends == 0 {
+		if !justified && (isAdd || cr.Kind == OpBegin) && cr.Appends == 0 {
 			// judged against the committed state the call ran under
 			against := latest.Model
 			if latest.View != nil {
@@ -464,7 +517,7 @@ func (w *World) afterOp(t *simrt.Task, hs *HandleState, cr *CallRec, before dirS
 	// accepted although the statement predicts rejection (writer domain)
 	if isAdd && cr.Class == "ok" && cr.Appends > 0 {
 		for _, wt := range cr.Written {
-			if wt.Bad != "" {
+			if wt.Bad != "" && !wt.Rejected && !wt.Empty {
 				w.violate("C04", "accepted-bad", wt.Bad, "a transaction that must be rejected was committed")
 			}
 		}
@@ -478,6 +531,9 @@ func (w *World) afterOp(t *simrt.Task, hs *HandleState, cr *CallRec, before dirS
 				continue
 			}
 			c := pathClassOf(p)
+			if c == "listlock" && o.Handle >= 0 && o.Handle < len(w.Handles) && w.Handles[o.Handle].Tr != nil && w.Handles[o.Handle].TrOp == o.Op {
+				continue // the lock of an Addition that is still open: the handle is not idle
+			}
 			if c == "listlock" || c == "tablelock" || c == "temp" {
 				if _, err := w.Sim.FS.Stat(p); err == nil {
 					left = append(left, c)
@@ -521,7 +577,7 @@ func (w *World) afterOp(t *simrt.Task, hs *HandleState, cr *CallRec, before dirS
 	}
 	// C17: an auto-compaction that runs strictly reduces the number of tables
 	if w.Sequential && cr.Kind == OpAutoCompact && !cr.StaleAtStart && cr.Class == "ok" && hs.Open &&
-		hs.St.Stats.Attempts > cr.AttemptsBefore && hs.St.Stats.Failures == cr.FailuresBefore && cr.Replaces == 0 {
+		hs.St.Stats.Attempts > cr.AttemptsBefore && hs.St.Stats.Failures == cr.FailuresBefore && cr.ListChanges == 0 {
 		w.violate("C17", "no-progress", "autocompact", "auto-compaction ran (attempted, no failure reported) but tables.list is unchanged")
 	}
 	// C17: "nothing to do" exactly when no two adjacent tables share a size class
@@ -676,7 +732,7 @@ func (w *World) checkHandleView(hs *HandleState, cr *CallRec) {
 // commits and leaves the directory unchanged; a failed Add refreshes.
 func (w *World) checkStaleOp(hs *HandleState, cr *CallRec, before dirSnap) {
 	switch cr.Kind {
-	case OpAdd, OpAddMulti:
+	case OpAdd, OpAddMulti, OpBegin:
 		if cr.Class != "lockfail" {
 			// an empty transaction may legitimately succeed? NewAddition
 			// itself must fail on a stale handle.
@@ -735,4 +791,14 @@ func (w *World) checkRetry(hs *HandleState, first, retry *CallRec) {
 	if nonEmpty > 0 && retry.Appends == 0 {
 		w.violate("C09", "retry-failed", "no-commit", "immediate retry returned success without committing")
 	}
+}
+
+// lockHeldByOpenAddition: some handle sits between begin and commit/abort.
+func (w *World) lockHeldByOpenAddition() bool {
+	for _, hs := range w.Handles {
+		if hs.Tr != nil {
+			return true
+		}
+	}
+	return false
 }
